@@ -362,6 +362,14 @@ def mixed_graph_equivalency(graph1, graph2):
         return False
 
 
+def _same_stabilizer_state(tableau1, tableau2):
+    """
+    Two stabilizer tableaux describe the same state iff their canonical forms coincide
+    (the same state has many generating sets)
+    """
+    return canonical_form(tableau1.copy()) == canonical_form(tableau2.copy())
+
+
 def mixed_stabilizer_equivalency(stab1, stab2):
     """
      Identify if two mixed state stabilizer representations are the same.
@@ -382,14 +390,14 @@ def mixed_stabilizer_equivalency(stab1, stab2):
             stab2_copy = copy.deepcopy(stab2)
             for p_i, s_i in stab1:
                 for q_i, t_i in stab2_copy:
-                    if np.equal(p_i, q_i) and s_i == t_i:
+                    if np.equal(p_i, q_i) and _same_stabilizer_state(s_i, t_i):
                         stab2_copy.remove((q_i, t_i))
                         break
             return len(stab2_copy) == 0
         else:
             return False
     elif isinstance(stab1, StabilizerTableau) and isinstance(stab2, StabilizerTableau):
-        return stab1 == stab2
+        return _same_stabilizer_state(stab1, stab2)
     else:
         return False
 
